@@ -11,6 +11,7 @@ import (
 	"path/filepath"
 	"strings"
 
+	"verifharness/internal/coqfmt"
 	"verifharness/internal/hist"
 	"verifharness/internal/rng"
 	"verifharness/internal/sim"
@@ -22,7 +23,9 @@ type histMode struct {
 	flavors []string
 	gen     hist.GenConfig
 	oracle  func(h *hist.History, o *hist.Outcome) []hist.Problem
-	twin    string // "", "nogc"
+	roracle func(r *hist.Run) []hist.Problem // oracle that needs the recorded traffic
+	proto   bool                            // emit protocol-model cases
+	twin    string                          // "", "nogc"
 }
 
 func baseOracle(h *hist.History, o *hist.Outcome) []hist.Problem {
@@ -44,6 +47,35 @@ func modeFor(prop string) (*histMode, error) {
 			oracle: func(h *hist.History, o *hist.Outcome) []hist.Problem {
 				return append(baseOracle(h, o), hist.CheckConvergence(o)...)
 			}}, nil
+	case "C04":
+		return &histMode{flavors: []string{"counter", "object", "array", "mixed"}, proto: true,
+			gen: hist.GenConfig{MinClients: 2, MaxClients: 5, MinSteps: 6, MaxSteps: 40, Inflight: true, PushOnly: true, Retry: true, Detach: true, Presence: true},
+			oracle: func(h *hist.History, o *hist.Outcome) []hist.Problem {
+				var ps []hist.Problem
+				for _, p := range hist.CheckLog(o) {
+					if p.Kind == "log-not-dense" || p.Kind == "clientseq-order" {
+						ps = append(ps, p)
+					}
+				}
+				return ps
+			},
+			roracle: hist.CheckDelivery}, nil
+	case "C05":
+		return &histMode{flavors: []string{"counter", "array", "text", "mixed"}, proto: true,
+			gen: hist.GenConfig{MinClients: 2, MaxClients: 4, MinSteps: 6, MaxSteps: 30, Retry: true, Inflight: true},
+			oracle: func(h *hist.History, o *hist.Outcome) []hist.Problem {
+				ps := baseOracle(h, o)
+				seen := map[string]bool{}
+				for _, r := range o.Log {
+					k := fmt.Sprintf("%s/%d", r.Actor, r.ClientSeq)
+					if seen[k] {
+						ps = append(ps, hist.Problem{Kind: "duplicate-actor-clientseq", Step: -1, Detail: fmt.Sprintf("(actor %s, clientSeq %d) stored twice (second at serverSeq %d)", r.Actor, r.ClientSeq, r.ServerSeq)})
+					}
+					seen[k] = true
+				}
+				return append(ps, hist.CheckConvergence(o)...)
+			},
+			roracle: hist.CheckDelivery}, nil
 	case "C06":
 		return &histMode{flavors: all,
 			gen: hist.GenConfig{MinClients: 2, MaxClients: 4, MinSteps: 6, MaxSteps: 30, Inflight: true, Detach: true},
@@ -101,13 +133,20 @@ func runHist(cfg *config) error {
 	seen := distinct{}
 	failSigs := map[string]int{}
 
+	var lastRun *hist.Run
 	runOne := func(h *hist.History) (*hist.Outcome, []hist.Problem) {
-		o := rn.Run(ctx, h)
+		run, o := rn.RunFull(ctx, h)
+		lastRun = run
 		if o.Fatal != "" {
 			return o, []hist.Problem{{Kind: "harness-fatal", Detail: o.Fatal}}
 		}
-		return o, mode.oracle(h, o)
+		ps := mode.oracle(h, o)
+		if mode.roracle != nil && run != nil {
+			ps = append(ps, mode.roracle(run)...)
+		}
+		return o, ps
 	}
+	var protoCases []string
 
 	if cfg.replay != "" {
 		b, err := os.ReadFile(cfg.replay)
@@ -157,6 +196,14 @@ func runHist(cfg *config) error {
 		if len(res.Samples) < 2 {
 			res.Samples = append(res.Samples, map[string]any{"history": h, "final": o.Final})
 		}
+		if mode.proto && lastRun != nil {
+			if c, ok := lastRun.ProtoCase(); ok {
+				protoCases = append(protoCases, c)
+				res.CaseIndex = append(res.CaseIndex, map[string]any{"history": i, "steps": h.Steps, "n": h.N})
+			} else {
+				res.count("proto.not-modelled")
+			}
+		}
 		if len(ps) == 0 {
 			continue
 		}
@@ -181,6 +228,18 @@ func runHist(cfg *config) error {
 	}
 	res.Nontrivial = len(seen)
 	res.Rule = "random multi-client histories (flavors " + strings.Join(mode.flavors, "/") + ") executed on a real in-process server (memory DB, real RPC stack) with manual clients that follow client.Client step by step; non-trivial = at least 2 clients and 2 updates; distinct = distinct step lists; failing histories are shrunk by delta debugging"
-	_ = filepath.Join
+	const shard = 100
+	for k := 0; k*shard < len(protoCases); k++ {
+		hi := (k + 1) * shard
+		if hi > len(protoCases) {
+			hi = len(protoCases)
+		}
+		f := filepath.Join(cfg.out, fmt.Sprintf("cases_proto_%d.v", k))
+		src := coqfmt.File([]string{"From YV Require Import Corr.Proto."}, "protocase", "mismatches protocheck", protoCases[k*shard:hi])
+		if err := os.WriteFile(f, []byte(src), 0o644); err != nil {
+			return err
+		}
+		res.CaseFiles = append(res.CaseFiles, f)
+	}
 	return res.write(cfg.out)
 }
